@@ -437,3 +437,195 @@ func c23DominatesReturns(in ssa.Instruction) bool {
 	}
 	return true
 }
+
+// ---------------------------------------------------------------------------
+// Absorbing flags.
+//
+// c23FlagAbsorbs decides "flag == want at a branch implies that no edge accepted
+// by event was taken during the current scan", for a boolean flag variable that
+// is lowered to Phi nodes (typically loop carried: `ok := true; for … { if bad
+// { ok = false } }; if ok {…}`).  It is the dual of c23FlagImplies: there every
+// edge that can carry `want` must be established by a fact; here every event
+// must force the flag to !want until the flag is tested.
+//
+// For each event edge the CFG is walked forwards with an abstract value
+// (unknown / true / false) for each Phi of the flag; whenever a block is
+// reached whose terminating If tests the flag, the abstract value must be the
+// constant !want.  The walk ends where the innermost loop that contains the
+// event is entered again from outside (a new scan starts; the flag may
+// legitimately be re-initialised there) and at no-return blocks.
+// reached = number of events from which a test of the flag is reachable.
+func c23FlagAbsorbs(flag ssa.Value, want bool, event EdgePred) (ok bool, reached int) {
+	root, isPhi := flag.(*ssa.Phi)
+	if !isPhi {
+		return false, 0
+	}
+	if b, isBasic := root.Type().Underlying().(*types.Basic); !isBasic || b.Info()&types.IsBoolean == 0 {
+		return false, 0
+	}
+	fn := root.Parent()
+	fam := map[*ssa.Phi]bool{}
+	var collect func(v ssa.Value)
+	collect = func(v ssa.Value) {
+		v, _ = stripNot(v, true)
+		ph, ok := v.(*ssa.Phi)
+		if !ok || fam[ph] {
+			return
+		}
+		fam[ph] = true
+		for _, e := range ph.Edges {
+			collect(e)
+		}
+	}
+	collect(root)
+	var famList []*ssa.Phi
+	for _, b := range fn.Blocks {
+		for _, in := range b.Instrs {
+			if ph, ok := in.(*ssa.Phi); ok && fam[ph] {
+				famList = append(famList, ph)
+			}
+		}
+	}
+	const (
+		unk = 0
+		tru = 1
+		fls = 2
+	)
+	type env map[*ssa.Phi]int
+	var eval func(v ssa.Value, e env) int
+	eval = func(v ssa.Value, e env) int {
+		v, pol := stripNot(v, true)
+		r := unk
+		if cv, isConst := constOf(v); isConst && cv.Kind() == constant.Bool {
+			r = fls
+			if constant.BoolVal(cv) {
+				r = tru
+			}
+		} else if ph, ok := v.(*ssa.Phi); ok && fam[ph] {
+			r = e[ph]
+		}
+		if !pol && r != unk {
+			r = tru + fls - r
+		}
+		return r
+	}
+	envKey := func(b *ssa.BasicBlock, e env) string {
+		k := []byte{byte(b.Index), byte(b.Index >> 8), ':'}
+		for _, ph := range famList {
+			k = append(k, byte('0'+e[ph]))
+		}
+		return string(k)
+	}
+	loops := c23NaturalLoops(fn)
+	wantNot := tru
+	if want {
+		wantNot = fls
+	}
+	allOK := true
+	for _, b := range fn.Blocks {
+		ifi, isIf := b.Instrs[len(b.Instrs)-1].(*ssa.If)
+		if !isIf || len(b.Succs) != 2 || b.Succs[0] == b.Succs[1] {
+			continue
+		}
+		for k := range b.Succs {
+			c, pol := stripNot(ifi.Cond, k == 0)
+			if !event(c, pol) {
+				continue
+			}
+			// innermost loop containing the event
+			var hdr *ssa.BasicBlock
+			var body map[*ssa.BasicBlock]bool
+			for h, bd := range loops {
+				if bd[b] && (body == nil || len(bd) < len(body)) {
+					hdr, body = h, bd
+				}
+			}
+			type item struct {
+				from, to *ssa.BasicBlock
+				e        env
+			}
+			seen := map[string]bool{}
+			st := []item{{b, b.Succs[k], env{}}}
+			tested := false
+			for len(st) > 0 {
+				it := st[len(st)-1]
+				st = st[:len(st)-1]
+				if hdr != nil && it.to == hdr && !body[it.from] {
+					continue // a new scan begins
+				}
+				// transfer over the phis of it.to (simultaneous assignment)
+				ne := env{}
+				for ph, v := range it.e {
+					ne[ph] = v
+				}
+				pi := -1
+				for i, p := range it.to.Preds {
+					if p == it.from {
+						pi = i
+					}
+				}
+				for _, in := range it.to.Instrs {
+					ph, ok := in.(*ssa.Phi)
+					if !ok {
+						break
+					}
+					if fam[ph] && pi >= 0 {
+						ne[ph] = eval(ph.Edges[pi], it.e)
+					}
+				}
+				key := envKey(it.to, ne)
+				if seen[key] {
+					continue
+				}
+				seen[key] = true
+				if isPanicBlock(it.to) {
+					continue
+				}
+				if ti, ok := it.to.Instrs[len(it.to.Instrs)-1].(*ssa.If); ok {
+					if tc, _ := stripNot(ti.Cond, true); tc == ssa.Value(root) {
+						tested = true
+						if ne[root] != wantNot {
+							allOK = false
+						}
+					}
+				}
+				for _, s := range it.to.Succs {
+					st = append(st, item{it.to, s, ne})
+				}
+			}
+			if tested {
+				reached++
+			}
+		}
+	}
+	return allOK && reached > 0, reached
+}
+
+// c23NaturalLoops maps each loop header to the blocks of its natural loop
+// (union over all back edges into the header).
+func c23NaturalLoops(fn *ssa.Function) map[*ssa.BasicBlock]map[*ssa.BasicBlock]bool {
+	out := map[*ssa.BasicBlock]map[*ssa.BasicBlock]bool{}
+	for _, h := range fn.Blocks {
+		for _, p := range h.Preds {
+			if !h.Dominates(p) {
+				continue
+			}
+			body := out[h]
+			if body == nil {
+				body = map[*ssa.BasicBlock]bool{h: true}
+				out[h] = body
+			}
+			st := []*ssa.BasicBlock{p}
+			for len(st) > 0 {
+				b := st[len(st)-1]
+				st = st[:len(st)-1]
+				if body[b] {
+					continue
+				}
+				body[b] = true
+				st = append(st, b.Preds...)
+			}
+		}
+	}
+	return out
+}
